@@ -17,7 +17,7 @@ VERDICT = "c17_verdict"
 EXPLAIN = "c17_explain"
 CASES_PER_FILE = 120
 CASE_FILE_BYTES = 140000
-TIERS = {"quick": {"n": 1500}, "thorough": {"n": 30000}}
+TIERS = {"quick": {"n": 1500}, "thorough": {"n": 24000, "exhaustive": True}}
 RULE = ("three families of histories. oto: up to 3 OneToOne instances built from pairs (dict/pairs/generator/iterator/"
         "kwargs/non-dict mapping, .unique), copied (.copy(), OneToOne(x), copy.copy), mutated through either side by "
         "[]=, del, pop, popitem, clear, setdefault, update, |=, update-from-another-instance; every instance's "
@@ -315,7 +315,45 @@ def gen_fd(rng, tier):
             "kvs2": items, "ctor2": _pick_form(rng, FD_FORMS, items)}
 
 
+def grid():
+    """exhaustive small scope (thorough tier): two tokens, every history of at most 2 operations through
+    either side after each of 4 initial contents, for OneToOne and ManyToMany"""
+    T = [0, 4]          # 'a', 'b' (also valid kwargs names)
+    oto_ops = []
+    for s in (0, 1):
+        for k in T:
+            oto_ops += [["op", 0, s, "del", k], ["op", 0, s, "pop", k]]
+            for v in T:
+                oto_ops += [["op", 0, s, "set", k, v], ["op", 0, s, "setdefault", k, v],
+                            ["op", 0, s, "update", [[k, v]], "iter"], ["op", 0, s, "ior", [[k, v]], "dict"]]
+        oto_ops += [["op", 0, s, "popitem"], ["op", 0, s, "clear"]]
+    for init in ([], [[0, 0]], [[0, 4]], [[0, 4], [4, 0]]):
+        first = ["new", False, "pairs", init]
+        for a in oto_ops:
+            yield {"kind": "oto", "ops": [first, a]}
+            for b in oto_ops:
+                yield {"kind": "oto", "ops": [first, a, b]}
+    m_ops = []
+    for s in (0, 1):
+        for k in T:
+            m_ops += [["op", 0, s, "delitem", k]]
+            for v in T:
+                m_ops += [["op", 0, s, "add", k, v], ["op", 0, s, "remove", k, v], ["op", 0, s, "replace", k, v],
+                          ["op", 0, s, "update", [[k, v]], "gen"]]
+            for vals in ([], [0], [4], [0, 4]):
+                m_ops += [["op", 0, s, "setitem", k, vals, "set"]]
+    for init in ([], [[0, 4]], [[0, 0], [0, 4]], [[0, 4], [4, 4]]):
+        first = ["new", "pairs", init]
+        for a in m_ops:
+            yield {"kind": "m2m", "ops": [first, a]}
+            for b in m_ops:
+                yield {"kind": "m2m", "ops": [first, a, b]}
+
+
 def generate(rng, tier, n):
+    if tier == "thorough" and TIERS["thorough"].get("exhaustive"):
+        for c in grid():
+            yield c
     for i in range(n):
         r = rng.random()
         if r < 0.45:
